@@ -7,6 +7,8 @@ package c18
 
 import (
 	"crypto/tls"
+	"errors"
+	"net"
 	"time"
 
 	"github.com/pion/dtls/v2"
@@ -141,8 +143,37 @@ func Check_Collector() {
 	}
 	cp, err := collector.InitCollectingProcess(in)
 	sx.Assert(err == nil && cp != nil, "init")
-	cp.Start() // the recorders make every listen call fail, so Start returns
+	// tls.Listen / dtls.Listen / net.ListenUDP are recorders that fail, so Start
+	// returns.  net.Listen succeeds with an in-memory listener, so that a server
+	// built as tls.NewListener(net.Listen(...)) can be followed: what matters is
+	// on which listener connections are accepted.
+	plain := &countingListener{closed: make(chan struct{})}
+	wrapped := &countingListener{closed: make(chan struct{})}
+	if enc && proto == "tcp" {
+		sx.RegisterListener(plain)
+		sx.RegisterTLSListener(wrapped)
+	}
+	done := make(chan struct{})
+	go func() { cp.Start(); close(done) }()
+	sx.Settle()
+	cp.Stop()
+	<-done
 	nTLS, nDTLS, nPlain, nUDP := sx.StubCount(fnTLSListen), sx.StubCount(fnDTLSListen), sx.StubCount(fnNetListen), sx.StubCount(fnListenUDP)
+	if enc && proto == "tcp" && nPlain > 0 {
+		// a TLS server on top of a plain listener: acceptable exactly if nothing is
+		// ever accepted on the plain listener and the wrapper got the configuration
+		sx.Assert(nTLS == 0 && nDTLS == 0 && nUDP == 0 && nPlain == 1, "wrong-listener")
+		sx.Assert(plain.accepts == 0, "connections-accepted-in-plaintext-although-encryption-is-configured")
+		if sx.StubCount(fnTLSNewListener) == 0 {
+			sx.Assert(wrapped.accepts == 0, "wrong-listener")
+			sx.Reach("configuration-error")
+			return
+		}
+		cfg := sx.StubArg(fnTLSNewListener, 0, 1).(*tls.Config)
+		checkServerConfig(cfg, hasCA)
+		sx.Reach("tls")
+		return
+	}
 	if !enc {
 		sx.Assert(nTLS == 0 && nDTLS == 0, "tls-used-without-configuration")
 		sx.Assert(nPlain+nUDP == 1, "plaintext-listener")
@@ -157,14 +188,7 @@ func Check_Collector() {
 			return
 		}
 		cfg := sx.StubArg(fnTLSListen, 0, 2).(*tls.Config)
-		sx.Assert(cfg != nil, "nil-tls-config")
-		sx.Assert(cfg.MinVersion == 0 || cfg.MinVersion >= tls.VersionTLS12, "MinVersion-below-TLS1.2")
-		sx.Assert(len(cfg.Certificates) == 1 || cfg.GetCertificate != nil, "server-certificate")
-		if hasCA {
-			sx.Assert(cfg.ClientAuth == tls.RequireAndVerifyClientCert, "client-CA-configured-but-client-certificates-not-required")
-			sx.Assert(cfg.ClientCAs != nil && sx.PoolHas(cfg.ClientCAs, caPEM), "ClientCAs-is-not-exactly-the-configured-CA")
-			sx.Reach("tls-client-auth")
-		}
+		checkServerConfig(cfg, hasCA)
 		sx.Reach("tls")
 		return
 	}
@@ -178,6 +202,48 @@ func Check_Collector() {
 	sx.Assert(dcfg.PSK == nil, "psk-instead-of-certificates")
 	sx.Reach("dtls")
 }
+
+const fnTLSNewListener = "crypto/tls.NewListener"
+
+func checkServerConfig(cfg *tls.Config, hasCA bool) {
+	sx.Assert(cfg != nil, "nil-tls-config")
+	sx.Assert(cfg.MinVersion == 0 || cfg.MinVersion >= tls.VersionTLS12, "MinVersion-below-TLS1.2")
+	sx.Assert(len(cfg.Certificates) == 1 || cfg.GetCertificate != nil, "server-certificate")
+	if hasCA {
+		sx.Assert(cfg.ClientAuth == tls.RequireAndVerifyClientCert, "client-CA-configured-but-client-certificates-not-required")
+		sx.Assert(cfg.ClientCAs != nil && sx.PoolHas(cfg.ClientCAs, caPEM), "ClientCAs-is-not-exactly-the-configured-CA")
+		sx.Reach("tls-client-auth")
+	}
+}
+
+// countingListener: an in-memory net.Listener that counts Accept calls and
+// blocks them until it is closed.
+type countingListener struct {
+	accepts int
+	closed  chan struct{}
+	nClose  int
+}
+
+var errListenerClosed = errors.New("listener closed")
+
+func (l *countingListener) Accept() (net.Conn, error) {
+	l.accepts++
+	<-l.closed
+	return nil, errListenerClosed
+}
+func (l *countingListener) Close() error {
+	l.nClose++
+	if l.nClose == 1 {
+		close(l.closed)
+	}
+	return nil
+}
+func (l *countingListener) Addr() net.Addr { return listenerAddr{} }
+
+type listenerAddr struct{}
+
+func (listenerAddr) Network() string { return "tcp" }
+func (listenerAddr) String() string  { return "127.0.0.1:4739" }
 
 var Table = map[string]runner.Entry{
 	"Check_Exporter":  {Setup: Setup, Fn: Check_Exporter},
